@@ -11,7 +11,8 @@ from . import C02 as c02
 MODULE = 'KdVerif.Props.C03'
 NAMESPACE = 'KdVerif.C03'
 TRUSTED = ['Model/ContainerV3 + Model/Construct + Model/Reader as models of parse_v3 / construct / BytesIO, tied by sections v3, '
-           'v3-malformed, v3-seq, v3-api (events, logs, both tables, every metadata attribute, outcome kind; read counters are compared in C06)',
+           'v3-malformed, v3-seq, v3-api (events, logs, both tables, every metadata attribute, outcome kind; read counters are compared in C06); '
+           'dumps whose tags lie across the block edges of the scanner (v3-blocks, sizes from tools/kdv/readprobe.py) are judged on the code alone',
            'Model/EndToEnd (version-3 branch of dumpOf: header + thread-map chunk at the first next, events of all chunks, log records '
            'dropped, exception of the blocks behind the last chunk after every line) + the trace-layer and line-builder models it '
            'composes, tied by section end-to-end (lines and final exception of formatted_traces on version-3 dumps, whole and cut)',
@@ -257,6 +258,133 @@ def oracle_api(c, got):
     return None
 
 
+# ---------------------------------------------------------------------------------------------- tags at the scanner's block edges
+
+SCANS = [('filler', ct.STACKSHOT_END), ('gap1', ct.TAG_THREADMAP), ('chunk0', ct.TAG_EVENTS), ('chunk1', ct.TAG_EVENTS)]
+STYLES = ['hi', 'zero', 'near', 'soup']
+
+
+def _base_recipe(rng):
+    seed = rng.randrange(1 << 30)
+    return {'v': 3, 'seed': seed, 'threads': rng.randrange(0, 4), 'trail': rng.choice([0, 0, 5]),
+            'filler': {'len': rng.randrange(0, 9), 'seed': seed}, 'gap1': {'len': rng.randrange(0, 9), 'seed': seed + 1},
+            'chunks': [{'gap': {'len': rng.randrange(0, 9), 'seed': seed + 2}, 'n': rng.randrange(1, 4), 'extra': rng.choice([0, 17])},
+                       {'gap': {'len': rng.randrange(0, 9), 'seed': seed + 3}, 'n': rng.randrange(1, 3), 'extra': 0}]}
+
+
+def _set_gap(rc, which, spec):
+    if which in ('filler', 'gap1'):
+        rc[which] = spec
+    else:
+        rc['chunks'][int(which[-1])]['gap'] = spec
+
+
+def block_case_set(rng, tier, sizes):
+    """For every block size B the scanner may work with, in priority order (the byte budget of a size cuts the list):
+    1. every scan (stackshot end, thread-map tag, events tag of the first and of a MORE chunk) with its tag straddling the
+       edge k*B of ITS scan (counted from where the scan starts) after j = 0..len(tag) bytes, k = 1;
+    2. a proper prefix of the tag ending exactly at the edge, the real tag one byte later (every prefix length);
+    3. the same straddles with the edge counted from the start of the file;  4. k = 2;
+    5. near-miss prefixes straddling the edge;  6. chunks with more than B bytes of records."""
+    out = []
+    quick = tier == 'quick'
+    total_budget = (4 << 20) if quick else None
+    for B, origin in sizes:
+        plan = []
+        for k, mode in ((1, 'rel'), (1, 'abs'), (2, 'rel')):
+            group = []
+            for which, tag in SCANS:
+                for j in range(len(tag) + 1):
+                    group.append(('straddle', which, tag, k, mode, j))
+            plan.append(group)
+        near_edge, near_str = [], []
+        for which, tag in SCANS[:3]:
+            for i in range(1, len(tag)):
+                near_edge.append(('near', which, tag, 1, 'rel', (i, 0)))
+                near_str.append(('near', which, tag, 1, 'rel', (i, max(1, i // 2))))
+        plan = [plan[0], near_edge, plan[1], plan[2], near_str, [('records', None, None, 1, 'rel', 0), ('records', None, None, 1, 'rel', 1)]]
+        budget = (36 * 2 * B) if quick else (48 << 20)
+        ncase = 0
+        for group in plan:
+            for kind, which, tag, k, mode, j in group:
+                rc = _base_recipe(rng)
+                style = STYLES[ncase % len(STYLES)]
+                if kind == 'records':
+                    n = B // 64 + 5
+                    rc['chunks'][0]['n'] = n
+                    rc['chunks'][1]['n'] = n + 3 if j else 2
+                    cost = 64 * (n + rc['chunks'][1]['n'])
+                    desc = 'records'
+                else:
+                    base = 0
+                    if mode == 'abs':
+                        _set_gap(rc, which, {'len': 0})
+                        _, info = ct.big_bytes(rc)
+                        base = info['scans'][[w for w, _ in SCANS].index(which)] % B
+                    if kind == 'straddle':
+                        n = k * B - j - base
+                        spec = {'len': n, 'style': style, 'seed': rc['seed']}
+                        desc = '%s tag after %d bytes across edge %d*B (%s)' % (which, j, k, mode)
+                    else:
+                        i, s_ = j
+                        n = k * B + 1 - s_ - base
+                        spec = {'len': n, 'style': style, 'seed': rc['seed'], 'tail': (tag[:i] + b'\xa5').hex()}
+                        desc = '%s: prefix of %d tag bytes %s the edge, tag 1 byte later' % (
+                            which, i, 'ending at' if not s_ else 'across')
+                    if n < 0 or (kind == 'near' and n < i + 1):
+                        continue
+                    _set_gap(rc, which, spec)
+                    cost = n + 600
+                if cost > budget or (total_budget is not None and cost > total_budget):
+                    continue
+                budget -= cost
+                if total_budget is not None:
+                    total_budget -= cost
+                out.append({'rc': rc, 'B': B, 'origin': origin, 'what': desc, 'kind': kind, 'api': ncase % 2})
+                ncase += 1
+    return out
+
+
+def run_blocks(c):
+    """(events, exception, tables text) of the real code on the recipe dump, read from a plain io.BytesIO; even cases through
+    KdBufParser.parse, odd ones through PyKdebugParser.kevents."""
+    from pykdebugparser.kd_buf_parser import KdBufParser
+    from pykdebugparser.pykdebugparser import PyKdebugParser
+    from pykdebugparser.os_log_event import OsLogEvent
+    data, info = ct.big_bytes(c['rc'])
+    tp, pn = {7: 7}, {7: 'stale'}
+    if c.get('api'):
+        p = PyKdebugParser()
+        p.threads_pids.update(tp)
+        p.pids_names.update(pn)
+        tp, pn = p.threads_pids, p.pids_names
+        gen = lambda: p.kevents(io.BytesIO(data))
+    else:
+        gen = lambda: KdBufParser(tp, pn).parse(io.BytesIO(data))
+    evs, err = [], [None]
+
+    def go():
+        try:
+            for e in gen():
+                if not isinstance(e, OsLogEvent):
+                    evs.append(e)
+        except Exception as x:
+            err[0] = x
+    ct.guarded(go, 180)
+    return info, evs, err[0], ct.show_tables(tp, pn)
+
+
+def oracle_blocks(c):
+    info, evs, err, tables = run_blocks(c)
+    if isinstance(err, ct.Watchdog):
+        return ('v3:hang@blocks', 'the parser does not return on a well-formed dump (%s)' % c['what'])
+    r = ct.judge_whole(info, evs, err, tables, 'v3 dump')
+    if r:
+        return ('v3:%s@blocks' % r[0], '%s — %s, block size aimed at %d (%s), scans start at %s, tags at %s'
+                % (r[1], c['what'], c['B'], c['origin'], info['scans'], info['tags']))
+    return None
+
+
 def correspondence(rep, rng, tier):
     from .. import rdir
     rdir.enable(rep)
@@ -287,6 +415,23 @@ def correspondence(rep, rng, tier):
                 rule='malformed stream: unpadded inner block, unresolvable log strings, plists without the expected key, payloads '
                      'that are no plist, non-UTF-8 trace codes, thread entries that end the map, wrong size fields, bad cpu_info, '
                      'missing marker/tag, trailing junk — outcome kind and partial attributes must agree')
+    from .. import readprobe
+    sizes = readprobe.block_sizes(tier, version=3)
+    rep.notes.append(readprobe.describe(tier))
+    core.run_code_section(rep, 'v3-blocks', block_case_set(rng, tier, sizes), oracle_blocks,
+                          kind_fn=lambda c: c['kind'] + ':' + c['origin'].split(':')[0],
+                          rule='code-only section (inputs too long for a protocol line): for every block size B the scanner may '
+                               'work with — request sizes above one record recorded from the real reader on small dumps '
+                               '(tools/kdv/readprobe.py), integer constants of the reader\'s source and their products with 64, and '
+                               'in the thorough tier / on a changed source the powers of two 2^9..2^20 — well-formed version-3 '
+                               'dumps whose stackshot filler / gap in front of the thread-map tag / gap in front of the events tag '
+                               '(first chunk and MORE chunk) has length k*B - j, j = 0..len(tag), k = 1, 2: the tag straddles a '
+                               'block edge of ITS scan at every split point (edges counted from the scan\'s start, and from the '
+                               'start of the file); proper prefixes of the tag ending at / lying across the edge with the real '
+                               'tag one byte later; fillers of high bytes, zero bytes, the tag without its last byte repeated, '
+                               'other tags; chunks with more than B bytes of records; read from a plain BytesIO through '
+                               'KdBufParser.parse and PyKdebugParser.kevents alternately, per-size byte budget; demanded: no '
+                               'exception, ALL fields of the events = the records of all chunks decoded, tables = thread map')
     seqs = []
     for _ in range(100 if quick else 1500):
         fs, hexes = [], []
@@ -323,6 +468,19 @@ def replay(path):
     if sec == 'end-to-end':
         from .. import pipeline as _PL
         return _PL.replay_e2e(case, 'C03', path)
+    if sec == 'v3-blocks':
+        info, evs, err, tables = run_blocks(case)
+        print('recipe:', case['rc'])
+        print('what  :', case['what'], '| block size aimed at', case['B'], '| scans start at', info['scans'], 'tags at', info['tags'],
+              'records at', info['areas'])
+        print('impl  : %s, %d events, %s' % (ct.show_err(err), len(evs), tables))
+        res = oracle_blocks(case)
+        if res:
+            print('failing:', res)
+            print(f'VIOLATION property=C03 replay={path}')
+            return 1
+        print('no violation on this input')
+        return 0
     fns = {'v3': (line_v3, impl_v3, oracle_v3), 'v3-junk': (line_v3, impl_v3, oracle_v3), 'v3-malformed': (line_v3, impl_v3, None),
            'v3-seq': (line_seq, impl_seq, oracle_seq), 'v3-api': (line_api, impl_api, oracle_api)}
     if sec not in fns:
